@@ -436,6 +436,14 @@ public:
         iterator(const reverse_iterator& it)
             : curr_leaf(it.curr_leaf), curr_slot(it.curr_slot)
         {
+            // a reverse position "one past the last slot" of a leaf is the
+            // first slot of the next leaf for a forward iterator.
+            if (curr_leaf != nullptr && curr_slot == curr_leaf->slotuse &&
+                curr_leaf->next_leaf != nullptr)
+            {
+                curr_leaf = curr_leaf->next_leaf;
+                curr_slot = 0;
+            }
         }
 
         //! Dereference the iterator.
@@ -627,12 +635,28 @@ public:
         const_iterator(const reverse_iterator& it)
             : curr_leaf(it.curr_leaf), curr_slot(it.curr_slot)
         {
+            // a reverse position "one past the last slot" of a leaf is the
+            // first slot of the next leaf for a forward iterator.
+            if (curr_leaf != nullptr && curr_slot == curr_leaf->slotuse &&
+                curr_leaf->next_leaf != nullptr)
+            {
+                curr_leaf = curr_leaf->next_leaf;
+                curr_slot = 0;
+            }
         }
 
         //! Copy-constructor from a const reverse iterator
         const_iterator(const const_reverse_iterator& it)
             : curr_leaf(it.curr_leaf), curr_slot(it.curr_slot)
         {
+            // a reverse position "one past the last slot" of a leaf is the
+            // first slot of the next leaf for a forward iterator.
+            if (curr_leaf != nullptr && curr_slot == curr_leaf->slotuse &&
+                curr_leaf->next_leaf != nullptr)
+            {
+                curr_leaf = curr_leaf->next_leaf;
+                curr_slot = 0;
+            }
         }
 
         //! Dereference the iterator.
@@ -826,6 +850,14 @@ public:
         reverse_iterator(const iterator& it)
             : curr_leaf(it.curr_leaf), curr_slot(it.curr_slot)
         {
+            // a forward position at the first slot of a leaf is "one past the
+            // last slot" of the previous leaf for a reverse iterator.
+            if (curr_leaf != nullptr && curr_slot == 0 &&
+                curr_leaf->prev_leaf != nullptr)
+            {
+                curr_leaf = curr_leaf->prev_leaf;
+                curr_slot = curr_leaf->slotuse;
+            }
         }
 
         //! Dereference the iterator.
@@ -989,6 +1021,9 @@ public:
 
         //! Friendly to the const_iterator, so it may access the two data items
         //! directly.
+        friend class const_iterator;
+
+        //! Also friendly to the reverse_iterator.
         friend class reverse_iterator;
 
         // The macro TLX_BTREE_FRIENDS can be used by outside class to access
@@ -1015,12 +1050,28 @@ public:
         const_reverse_iterator(const iterator& it)
             : curr_leaf(it.curr_leaf), curr_slot(it.curr_slot)
         {
+            // a forward position at the first slot of a leaf is "one past the
+            // last slot" of the previous leaf for a reverse iterator.
+            if (curr_leaf != nullptr && curr_slot == 0 &&
+                curr_leaf->prev_leaf != nullptr)
+            {
+                curr_leaf = curr_leaf->prev_leaf;
+                curr_slot = curr_leaf->slotuse;
+            }
         }
 
         //! Copy-constructor from a const iterator.
         const_reverse_iterator(const const_iterator& it)
             : curr_leaf(it.curr_leaf), curr_slot(it.curr_slot)
         {
+            // a forward position at the first slot of a leaf is "one past the
+            // last slot" of the previous leaf for a reverse iterator.
+            if (curr_leaf != nullptr && curr_slot == 0 &&
+                curr_leaf->prev_leaf != nullptr)
+            {
+                curr_leaf = curr_leaf->prev_leaf;
+                curr_slot = curr_leaf->slotuse;
+            }
         }
 
         //! Copy-constructor from a mutable reverse iterator.
